@@ -1,5 +1,5 @@
 (* C09 — closed instances showing that the hypotheses of the property theorems are satisfiable. *)
-From Coq Require Import List ZArith Bool Reals Lra.
+From Coq Require Import List ZArith Bool Reals Lra Lia.
 From SC Require Import Base.Num C09.Model C09.ProofsSearch.
 Import ListNotations.
 Local Open Scope R_scope.
@@ -33,3 +33,28 @@ Qed.
 (* a two-class model and a three-class model *)
 Definition ex_lr2 : lr_model (T := R) := mkLr [[1; -1]] [1/2] [3; 7] 2%nat.
 Definition ex_lr3 : lr_model (T := R) := mkLr [[1; 0]; [0; 1]; [1; 1]] [0; 0; 1/2] [5; -2; 9] 3%nat.
+
+(* a line search that cannot succeed gives up with the zero step: whenever every positive step fails the test *)
+Lemma bt_search_gives_up P phi alpha f0 df0 :
+  0 < alpha -> 0 < bt_plo P -> (forall a, 0 < a -> f0 + bt_c1 P * a * df0 < phi a) ->
+  bt_search ROps P phi alpha f0 df0 = Some (0, f0).
+Proof.
+  intros Ha Hp H. destruct (bt_search_total ROps P phi alpha f0 df0) as [a [fx E]].
+  destruct (backtracking_armijo P phi alpha f0 df0 a fx Ha Hp E) as [[[Hpos [Hfx Hle]]|[-> ->]] _]; [|exact E].
+  exfalso. specialize (H a Hpos). lra.
+Qed.
+(* e.g. the objective is 0 at the current point and 1 everywhere else along a direction claimed to descend *)
+Lemma ex_line_search_gives_up : bt_search ROps ex_bt (fun _ => 1) 1 0 (-1) = Some (0, 0).
+Proof. apply bt_search_gives_up; [lra | cbn; lra |]. intros a Ha. cbn. lra. Qed.
+
+(* a convex objective with its gradient: f(x) = <x,x>/2, df(x) = x *)
+Definition ex_sq (x : list R) : R := vdot ROps x x / 2.
+Lemma ex_sq_tangent x : forall s a, length s = length x ->
+  ex_sq x + a * vdot ROps x s <= ex_sq (vadd ROps x (vscale ROps s a)).
+Proof.
+  unfold ex_sq. induction x as [|h x IH]; intros [|k s] a Hl; cbn in Hl; try discriminate.
+  - unfold vdot; cbn. lra.
+  - cbn [vscale map vadd map2]. change (map (fun x0 => omul ROps x0 a) s) with (vscale ROps s a).
+    change (map2 (fun x0 y => oadd ROps x0 y) x (vscale ROps s a)) with (vadd ROps x (vscale ROps s a)).
+    rewrite !vdot_cons_R. specialize (IH s a ltac:(lia)). cbn [ROps oadd omul]. nra.
+Qed.
